@@ -519,7 +519,14 @@ pub fn parse_condition(condition: &str) -> Result<crate::ast::Condition, Compile
         "true" => Ok(Condition::Bool(true)),
         "false" => Ok(Condition::Bool(false)),
         _ => {
-            if let Some(name) = condition.strip_suffix("()") {
+            // A bare call `name()`; anything more (`not f()`, `a + f()`) is an expression
+            if let Some(name) = condition.strip_suffix("()")
+                && !name.trim().is_empty()
+                && name
+                    .trim()
+                    .chars()
+                    .all(|c| c.is_ascii_alphanumeric() || c == '_')
+            {
                 return Ok(Condition::FunctionCall(name.trim().to_owned()));
             }
 
